@@ -111,6 +111,69 @@ PAYLOADS = {
 PURCHASE_DATA = bytes.fromhex('500a14cdcdcdcdcdcdcdcdcdcdcdcdcdcdcdcdcdcdcdcd')
 SUPPORT_DATA = bytes.fromhex('000a0178')
 
+# ---- data that matches every script template but is hostile one layer further in -------------------------
+# claim / support / update NAMES are arbitrary bytes on chain: these are not valid UTF-8 (or unusual)
+HOSTILE_NAMES = {
+    'ff_fe': b'\xff\xfe',
+    'lone_continuation': b'\x80',
+    'overlong_slash': b'\xc0\xaf',
+    'truncated_multibyte': b'caf\xe2\x82',
+    'surrogate': b'\xed\xa0\x80',
+    'five_byte_form': b'\xf8\x88\x80\x80\x80',
+    'latin1': 'caf\u00e9'.encode('latin-1'),
+    'utf16': 'name'.encode('utf-16'),
+    'long_invalid': b'a' * 90 + b'\xfe' + b'b' * 200,
+}
+# not hostile to a strict decoder, but unusual: must be handled as well (controls)
+ODD_VALID_NAMES = {
+    'empty': b'',
+    'nul': b'a\x00b',
+    'long_valid': ('\u00e9' * 150).encode(),
+    'bom': b'\xef\xbb\xbfname',
+}
+
+
+def pb_bytes(field, data):
+    """protobuf length-delimited field"""
+    n, v = len(data), b''
+    while True:
+        b = n & 0x7f
+        n >>= 7
+        v += bytes([b | (0x80 if n else 0)])
+        if not n:
+            break
+    return bytes([(field << 3) | 2]) + v + data
+
+
+def channel_payload(public_key, title=b'chan'):
+    """Unsigned v2 claim that decodes as a CHANNEL whose public_key field holds exactly `public_key`."""
+    return b'\x00' + pb_bytes(2, pb_bytes(1, public_key) if public_key is not None else b'') + pb_bytes(8, title)
+
+
+_DER_SECP256K1 = bytes.fromhex('3056301006072a8648ce3d020106052b8104000a03420004')
+_GOOD_POINT = bytes.fromhex('1b84c5567b126440995d3ed5aaba0565d71e1834604819ff9c17f5e9d5dd078f'
+                            '70beaf8f588b541507fed6a642c5ab42dfdf8120a7f639de5122d47a69a8e8d1')
+# channel public keys that are neither 33 raw bytes nor DER of a secp256k1 key (None: field absent)
+MALFORMED_CHANNEL_KEYS = {
+    'junk10': bytes.fromhex('8f3a1c5577e0d2419b06'),
+    'empty': b'',
+    'absent': None,
+    'truncated_der': (_DER_SECP256K1 + _GOOD_POINT)[:40],
+    'der_point_not_on_curve': _DER_SECP256K1 + b'\x11' * 64,
+    'raw32': b'\x5a' * 32,
+    'raw34': b'\x02' + b'\x5a' * 33,
+    'raw65_uncompressed': b'\x04' + _GOOD_POINT,
+    'der_other_structure': bytes.fromhex('3003020101'),
+    'der_empty_sequence': bytes.fromhex('3000'),
+    'der_length_beyond_data': bytes.fromhex('30820100') + b'\x00' * 10,
+    'der_rsa_key': bytes.fromhex('301a300d06092a864886f70d01010105000309003006020100020103'),
+}
+# well-formed controls
+WELLFORMED_CHANNEL_KEYS = {
+    'der_secp256k1': _DER_SECP256K1 + _GOOD_POINT,
+    'raw33': b'\x03' + _GOOD_POINT[:32],
+}
+
 WALLET_KINDS = ('plain', 'claim', 'update', 'support', 'support_data')
 SPENDABLE_KINDS = ('plain',)
 
@@ -122,7 +185,9 @@ THIRD_EXOTIC = ('witness_v1', 'multisig', 'op_return_bare', 'op_return_multi', '
                 'truncated_pushdata2', 'garbage')
 
 
-def third_party_script(kind, rng, garbage_hex=None):
+def third_party_script(kind, rng, garbage_hex=None, name=None, payload=None):
+    """`name` / `payload` override the claim name and claim payload of the claim-carrying kinds."""
+    nm = b'other' if name is None else name
     rb = lambda n: rng.getrandbits(8 * n).to_bytes(n, 'big')  # noqa: E731
     if kind == 'p2pkh':
         return p2pkh(rb(20))
@@ -143,15 +208,15 @@ def third_party_script(kind, rng, garbage_hex=None):
     if kind == 'op_return_empty':
         return OP_RETURN + OP_0
     if kind == 'claim_p2pkh':
-        return claim_prefix(b'other', PAYLOADS['stream']) + p2pkh(rb(20))
+        return claim_prefix(nm, PAYLOADS['stream'] if payload is None else payload) + p2pkh(rb(20))
     if kind == 'claim_p2sh':
-        return claim_prefix(b'other', PAYLOADS['channel']) + p2sh(rb(20))
+        return claim_prefix(nm, PAYLOADS['channel'] if payload is None else payload) + p2sh(rb(20))
     if kind == 'update_p2sh':
-        return update_prefix(b'other', rb(20), PAYLOADS['stream']) + p2sh(rb(20))
+        return update_prefix(nm, rb(20), PAYLOADS['stream'] if payload is None else payload) + p2sh(rb(20))
     if kind == 'support_p2pkh':
-        return support_prefix(b'other', rb(20)) + p2pkh(rb(20))
+        return support_prefix(nm, rb(20)) + p2pkh(rb(20))
     if kind == 'support_p2sh':
-        return support_data_prefix(b'other', rb(20), SUPPORT_DATA) + p2sh(rb(20))
+        return support_data_prefix(nm, rb(20), SUPPORT_DATA) + p2sh(rb(20))
     if kind == 'empty':
         return b''
     # ---- exotic ----
